@@ -622,6 +622,9 @@ func (b *BaseStore) Sync(ctx context.Context, heads []ipfslog.Entry) error {
 		return nil
 	}
 
+	// only heads that passed the checks below are handed to the replicator
+	verified := make([]ipfslog.Entry, 0, len(heads))
+
 	for _, h := range heads {
 		if h == nil {
 			b.Logger().Debug("warning: Given input entry was 'null'.")
@@ -660,10 +663,15 @@ func (b *BaseStore) Sync(ctx context.Context, heads []ipfslog.Entry) error {
 		}
 
 		span.AddEvent("store-sync-head-verified")
+		verified = append(verified, h)
 	}
 
-	verifhook.At("sync.spawn", b, len(heads))
-	go b.Replicator().Load(ctx, heads)
+	if len(verified) == 0 {
+		return nil
+	}
+
+	verifhook.At("sync.spawn", b, len(verified))
+	go b.Replicator().Load(ctx, verified)
 
 	return nil
 }
@@ -970,8 +978,11 @@ func (b *BaseStore) replicationLoadComplete(ctx context.Context, logs []ipfslog.
 		_, err := oplog.Join(log, -1)
 		verifhook.At("join.log", b, log, err)
 		if err != nil {
+			// skip what the log refuses (access controller, signature) and keep
+			// the rest of the batch: these entries are marked as fetched by the
+			// replicator and would never be offered again
 			b.Logger().Error("unable to join logs", zap.Error(err))
-			return
+			continue
 		}
 
 		entries = append(entries, log.GetEntries().Slice()...)
